@@ -112,7 +112,7 @@ def gen_plan(run_seed: int, tier: str) -> dict:
     clean_hemi = r.random() < 0.35
     reuse_svc = r.random() < 0.25
     near_ldm = r.random() < 0.12                       # finding trigger: event on top of the receiver's LDM position
-    int_altconf = r.random() < 0.08                    # finding trigger: integer altitude confidence (as typed) for CRW
+    int_altconf = False                               # integer altitude confidence for CRW: API typing ambiguity (annotation int, coder wants the enumeration name) - not part of the property, not generated
     hemi = "NE" if clean_hemi else r.choice(npl.HEMIS)
     n = r.randint(2, 3)
     blat, blon = npl.base_point(r, hemi)
